@@ -297,7 +297,44 @@ fn law_cases(ctx: &Ctx) -> Vec<(Case, bool)> {
         ("[a, [b, c], {\"k\": [d, ..e]}] := [1, [2, 3], {\"k\": [4, 5, 6]}]\nprint([a, b, c, d])\nprint(e)\n", "[\n    1,\n    2,\n    3,\n    4,\n]\n[\n    5,\n    6,\n]\n"),
         ("a := 0\nb := 0\n[a, b] = [b + 1, a + 2]\nprint([a, b])\n[a, b] = [b, a]\nprint([a, b])\n", "[\n    1,\n    2,\n]\n[\n    2,\n    1,\n]\n"),
     ];
+    let srcs: Vec<(String, String)> = {
+        let mut v: Vec<(String, String)> = srcs.iter().map(|(a, b)| (a.to_string(), b.to_string())).collect();
+        // Sizes beyond the small scope.
+        for n in [17i64, 33, 64, 100] {
+            v.push((format!("xs := 0 .. {n}\n[a, b, ..rest] := xs\nprint(([a, b] + rest) == xs)\nprint(rest[{}])\nn := 0\nfor kv in rest {{\n    n += 1\n}}\nprint(n)\n", n - 3), format!("true\n{}\n{}\n", n - 1, n - 2)));
+            v.push((format!("fn count(first, ..r) {{\n    n := 0\n    for kv in r {{\n        n += 1\n    }}\n    return [first, n, r[{}]]\n}}\nxs := 0 .. {n}\nprint(count(xs..) == [0, {}, {}])\nprint(count(7, xs.., 8) == [7, {}, {}])\n", n - 2, n - 1, n - 1, n + 1, n - 2), "true\ntrue\n".to_string()));
+            v.push((format!("xs := 0 .. {n}\nys := [xs.., xs..]\nprint(ys == (xs + xs))\nprint(ys[{}])\n", 2 * n - 1), format!("true\n{}\n", n - 1)));
+        }
+        let keys: Vec<String> = (0..24).map(|k| format!("\"p{k:02}\": {k}")).collect();
+        v.push((format!("o := {{{}}}\n{{p00, \"p23\": last, ..rest}} := o\nprint({{\"p00\": p00, \"p23\": last, rest..}} == o)\nn := 0\nfor kv in rest {{\n    n += 1\n}}\nprint([p00, last, n])\n", keys.join(", ")), "true\n[\n    0,\n    23,\n    22,\n]\n".to_string()));
+        v
+    };
     let mut out: Vec<(Case, bool)> = srcs.iter().map(|(s, e)| (Case{property: "C13".into(), kind: "law".into(), srcs: vec![s.as_bytes().to_vec()], pred: Pred::Expect(Expect::ok(e.as_bytes().to_vec())), note: "inverse law evaluated by the interpreter".into()}, true)).collect();
+    // Spread next to arguments / items with side effects on the spread list:
+    // `f(xs.., g())` must behave as `f(xs[0], .., xs[n-1], g())` and
+    // `[xs.., g()]` as `[xs[0], .., xs[n-1], g()]`, whatever g does to xs.
+    // (Not as `xs + [g()]`: `+` holds its left operand by reference while
+    // the right one is evaluated.)
+    let effects = [
+        ("xs[0] = 11", "element write"), ("xs[2] += 5", "op-assign on an element"), ("xs[0:2] = [7, 8]", "range write"),
+        ("xs += [4]", "rebinding append"), ("xs = [9, 9, 9]", "rebinding"), ("[xs[1], xs[0]] = [xs[0], xs[1]]", "swap through a pattern"),
+    ];
+    for (eff, ename) in effects {
+        let pre = format!("xs := [1, 2, 3]\nfn g() {{\n    {eff}\n    return 11\n}}\nfn f(..r) {{\n    return r\n}}\nfn h(a, b, c, ..r) {{\n    return [c, b, a] + r\n}}\n");
+        let pairs = [
+            ("print(f(xs.., g()))\nprint(xs)\n", "print(f(xs[0], xs[1], xs[2], g()))\nprint(xs)\n"),
+            ("print(h(xs.., g(), xs..))\n", "print(h(xs[0], xs[1], xs[2], g(), xs..))\n"),
+            ("print(f(0, xs.., g(), g()))\n", "print(f(0, xs[0], xs[1], xs[2], g(), g()))\n"),
+            ("print([xs.., g()])\nprint(xs)\n", "print([xs[0], xs[1], xs[2], g()])\nprint(xs)\n"),
+            ("print([xs.., g(), xs..])\n", "print([xs[0], xs[1], xs[2], g(), xs..])\n"),
+            ("ys := [xs.., [g()]..]\nprint(ys)\n", "ys := [xs[0], xs[1], xs[2], [g()]..]\nprint(ys)\n"),
+            ("{a, ..rest} := {\"a\": [xs.., g()], \"b\": xs}\nprint(a)\nprint(rest)\n", "{a, ..rest} := {\"a\": [xs[0], xs[1], xs[2], g()], \"b\": xs}\nprint(a)\nprint(rest)\n"),
+        ];
+        for (l, r) in pairs {
+            ctx.label("spread beside a side effect on the spread list");
+            out.push((Case{property: "C13".into(), kind: "spread_effect".into(), srcs: vec![format!("{pre}{l}").into_bytes(), format!("{pre}{r}").into_bytes()], pred: Pred::Same{same_msg: false, positions: None}, note: format!("{ename}: spread form vs written-out form")}, true));
+        }
+    }
     // Errors: a name bound twice, at any nesting; wrong places.
     let errs = [
         "a := 0\nb := 0\n[[a, b], a] = [[10, 20], 30]\nprint(a)\n", "c := 0\n{\"p\": {\"q\": c}, \"r\": c} = {\"p\": {\"q\": 1}, \"r\": 2}\nprint(c)\n",
